@@ -19,7 +19,7 @@ static void cl_send(int srv, const uint8_t *req)
     if (cl_hook) cl_hook(cl_hook_i++);
     int first = OBS.ntx;
     sdo_request(srv, req);
-    if (OBS.fatal) mc_fail("fatal-error callback invoked", "during an SDO dialogue");
+    if (OBS.fatal) mc_fail("safety:fatal-error callback invoked", "during an SDO dialogue");
     cl_nresp = 0;
     for (int i = first; i < OBS.ntx && i < W_MAX_TX; i++) {
         cl_resp[cl_nresp++] = OBS.tx[i];
